@@ -37,7 +37,7 @@ for mf in files:
             if '--syntax' in sys.argv:
                 pass
             for p in m.get('props', [prop]):
-                r = subprocess.run([os.path.join(V, 'check'), p, '--tier', tier], cwd=V, stdout=subprocess.PIPE, stderr=subprocess.STDOUT, text=True)
+                r = subprocess.run([os.path.join(V, 'check'), p, '--tier', m.get('tier', tier)], cwd=V, stdout=subprocess.PIPE, stderr=subprocess.STDOUT, text=True)
                 out = r.stdout
                 if m['kind'] == 'bad':
                     ok = r.returncode == 1 and (m.get('rule') is None or ('rule %s' % m['rule']) in out)
